@@ -2041,6 +2041,11 @@ func (st *stream) processTrailerHeaders(f *MetaHeadersFrame) error {
 	if len(f.PseudoFields()) > 0 {
 		return sc.countError("trailers_pseudo", streamError(st.id, ErrCodeProtocol))
 	}
+	if f.Truncated {
+		// Fields beyond the header list size limit were dropped: reject the
+		// request rather than hand the handler a subset of its trailers.
+		return sc.countError("trailers_too_large", streamError(st.id, ErrCodeProtocol))
+	}
 	if st.trailer != nil {
 		for _, hf := range f.RegularFields() {
 			key := sc.canonicalHeader(hf.Name)
